@@ -81,6 +81,8 @@ pub const COMMON_ASSUMPTIONS: &[&str] = &[
 
 fn o_c04(p: &Program, t: &Trace) -> Vec<Finding> {
     let mut v = o_map(p, t);
+    // (unsettled histories racing the sweep: an entry re-inserted without TTL is not lost to it)
+    v.extend(o_no_ttl_stays(p, t));
     v.extend(o_agree(p, t));
     v.extend(o_after_clear_kept(p, t));
     v.extend(o_lookup(p, t));
@@ -258,6 +260,9 @@ pub fn c04(tier: &str, flavor: Flavor) -> Spec {
             jobs.push(job(single(&ccfg, flavor, settled(&ops)), &[0], "c04-cost-changes"));
         }
     }
+    // the client re-inserts / refreshes keys whose TTL has just run out while the sweep for their
+    // bucket is due (the clock jumps past the deadlines, no quiescence before the client goes on)
+    jobs.extend(tick_race_jobs(flavor, quick, "c04-tick-race"));
     Spec {
         id: "C04",
         jobs,
@@ -683,6 +688,18 @@ pub fn c05(tier: &str, flavor: Flavor) -> Spec {
             jobs.push(job(p, &[2], "c05-filing-vs-sweep"));
         }
     }
+    // two clients overwrite the TTL of one resident key at the same time (each files the new
+    // deadline in the expiry index on its own thread): whichever deadline the entry ends up
+    // with, the sweep finds it
+    for (a, b) in [(1000u64, 5000u64), (5000, 1000), (0, 5000), (1000, 2500)] {
+        let mut p = conc(&Cfg::default(), flavor, &[ins(1, 1, 5000), ins(2, 1, 0)], vec![vec![ins(1, 1, a)], vec![ins(1, 1, b)]]);
+        p.post = vec![Op::Settle];
+        for _ in 0..8 {
+            p.post.push(Op::Adv { ms: 1000 });
+            p.post.push(Op::Settle);
+        }
+        jobs.push(job(p, &[2], "c05-two-writers"));
+    }
     jobs.extend(tick_race_jobs(flavor, quick, "c05-tick-race"));
     // a lookup guard (on the expired entry itself or on a neighbour in the same shard) held while
     // the sweep for that entry is due: the sweep waits for the guard, the entry is reclaimed
@@ -726,7 +743,7 @@ pub fn c05(tier: &str, flavor: Flavor) -> Spec {
         oracle: o_c05,
         interesting: |_, t| has_expiry(t),
         rule: format!(
-            "every history of depth {} over {} symbols (I(k,ttl) k in 1..2, R(k), I(1,no ttl), A(0.25s), A(1s)) containing a TTL insert, x {} (cleanup interval incl. the 2 s default, clock phase) settings, followed by 7 x 1 s of idle time; quiescence after every step (the processor is never starved), all choices at bound 0; oracle: physically reclaimed, un-charged and handed to on_evict exactly once with the charged cost by deadline + 1 s + interval; never evicted before the deadline; plus c05-filing-vs-sweep (one client gives a resident key a TTL while another lets the clock pass the deadline of its bucket-mates; bound 2), plus entries whose TTL runs out before the processor applies the buffered insert (dead on arrival: 0.3 s TTL with 0.4-1.5 s of lag, 1 ns / 999999 ns TTLs), plus the odd-charges family (costs -5 / -1 / 0 with a Coster answering 0 or -3, depth 3, both keys re-inserted afterwards) and the families named in DESIGN 11.5; non-trivial = an expiry was reclaimed",
+            "every history of depth {} over {} symbols (I(k,ttl) k in 1..2, R(k), I(1,no ttl), A(0.25s), A(1s)) containing a TTL insert, x {} (cleanup interval incl. the 2 s default, clock phase) settings, followed by 7 x 1 s of idle time; quiescence after every step (the processor is never starved), all choices at bound 0; oracle: physically reclaimed, un-charged and handed to on_evict exactly once with the charged cost by deadline + 1 s + interval; never evicted before the deadline; plus c05-two-writers (two clients overwrite the TTL of one resident key at the same time; bound 2), c05-filing-vs-sweep (one client gives a resident key a TTL while another lets the clock pass the deadline of its bucket-mates; bound 2), plus entries whose TTL runs out before the processor applies the buffered insert (dead on arrival: 0.3 s TTL with 0.4-1.5 s of lag, 1 ns / 999999 ns TTLs), plus the odd-charges family (costs -5 / -1 / 0 with a Coster answering 0 or -3, depth 3, both keys re-inserted afterwards) and the families named in DESIGN 11.5; non-trivial = an expiry was reclaimed",
             depth,
             alpha.len(),
             configs.len()
@@ -1809,6 +1826,13 @@ pub fn c10(tier: &str, flavor: Flavor) -> Spec {
             jobs.push(job(conc(&Cfg::default(), flavor, &[ins(1, 1, 1000), ins(2, 1, 0)], vec![a.clone(), b.clone()]), &[2], "c10-ttl-refresh-vs-clear"));
         }
     }
+    // a client that holds a lookup guard calls into the policy (max_cost()) while the sweep for an
+    // expired entry of the same shard is due: the sweep waits for the guard, the guard's owner
+    // for nothing the sweep holds; then the barrier
+    for b in [vec![Op::Adv { ms: 2500 }], vec![Op::Adv { ms: 2500 }, ins(3, 1, 0), Op::Wait]] {
+        let a = vec![Op::GetMaxCost { k: 1 }, ins(2, 1, 0), Op::Wait, Op::Get { k: 2 }];
+        jobs.push(job(conc(&Cfg::default(), flavor, &[ins(1, 1, 0), ins(257, 1, 1000)], vec![a, b.clone()]), &[2], "c10-guard-into-policy"));
+    }
     // waits with nothing pending, racing close/clear directly
     for threads in [
         vec![vec![Op::Wait], vec![Op::Close]],
@@ -1837,7 +1861,7 @@ pub fn c10(tier: &str, flavor: Flavor) -> Spec {
         oracle: o_c10,
         interesting: |_, t| t.recs.iter().any(|r| r.op == Op::Wait && r.res == Res::Unit),
         rule: format!(
-            "client A: every history of <= {} operations over {{I(1), I(2), R(1), R(2), P(1), W}}, then wait(), then (without settling) G(1), G(2) and a facade snapshot; other clients: none | another waiter | clear | close | clear;close | close + a second waiter | two more waiters; insert buffer sizes 1, 2, 8; all schedules up to preemption bound {} and all select choices. Barrier oracle: after an Ok wait A's inserts are retrievable and charged, its removes are gone (a concurrent clear may discard inserts); termination: a wait() that never returns is a blocked-forever task = deadlock report; plus the families c10-same-key, c10-shard-held, c10-ttl (TTL of Duration::MAX; a key re-inserted after its TTL ran out, before the sweep) and c10-own-clear (the client's own clear() with work buffered, then insert / remove and the barrier); non-trivial = some wait() returned Ok",
+            "client A: every history of <= {} operations over {{I(1), I(2), R(1), R(2), P(1), W}}, then wait(), then (without settling) G(1), G(2) and a facade snapshot; other clients: none | another waiter | clear | close | clear;close | close + a second waiter | two more waiters; insert buffer sizes 1, 2, 8; all schedules up to preemption bound {} and all select choices. Barrier oracle: after an Ok wait A's inserts are retrievable and charged, its removes are gone (a concurrent clear may discard inserts); termination: a wait() that never returns is a blocked-forever task = deadlock report; plus the families c10-same-key, c10-shard-held, c10-ttl (TTL of Duration::MAX; a key re-inserted after its TTL ran out, before the sweep) c10-own-clear (the client's own clear() with work buffered, then insert / remove and the barrier), c10-ttl-refresh-vs-clear and c10-guard-into-policy (a client holding a lookup guard calls max_cost() while the sweep of that shard is due); non-trivial = some wait() returned Ok",
             if quick { 2 } else { 3 },
             if quick { 2 } else { 3 }
         ),
@@ -2089,6 +2113,17 @@ pub fn c12(tier: &str, flavor: Flavor) -> Spec {
             }
         }
     }
+    // lookups whose batches reach the policy worker (buffer_items 0 / 1: every lookup flushes) while
+    // another client closes: the stop hand-over to the worker and its batch handling must not wait
+    // for each other
+    for buffer_items in [0usize, 1] {
+        let lcfg = Cfg { buffer_items, ..cfg.clone() };
+        for looks in [vec![Op::Get { k: 1 }], vec![Op::Get { k: 1 }, Op::Get { k: 2 }], vec![Op::Mut { k: 1 }, Op::Get { k: 1 }]] {
+            let mut p = conc(&lcfg, flavor, &[ins(1, 1, 0)], vec![vec![Op::Close], looks.clone()]);
+            p.post = vec![Op::Get { k: 1 }, Op::Close, Op::Wait];
+            jobs.push(job(p, &[2], "c12-lookups-vs-close"));
+        }
+    }
     // every handle dropped without close(): workers must terminate
     for setup in &pre {
         jobs.push(job(conc(&cfg, flavor, setup, vec![vec![ins(3, 1, 0), Op::DropHandle]]), &[2], "c12-drop"));
@@ -2099,7 +2134,7 @@ pub fn c12(tier: &str, flavor: Flavor) -> Spec {
         jobs,
         oracle: o_c12,
         interesting: |_, t| t.recs.iter().any(|r| r.op == Op::Close && r.res == Res::Unit),
-        rule: "close races: Z|Z, Z|Z|Z, Z|I, Z|R, Z|X, Z|G;M, Z;Z, I;Z|I;Z, Z|W, Z|I;W, Z|W;W, each x 2 pre-histories x {no, some} buffered work, followed on thread 0 by every kind of call on the closed cache; plus programs that drop every handle without close(); all schedules up to preemption bound 2 (3 for two-thread shapes in the thorough tier); oracle: no panic / no deadlock (engine), every call that begins after a close() returned Ok is refused without effect, both workers have terminated at the final quiescent point; non-trivial = some close() returned Ok".into(),
+        rule: "close races: Z|Z, Z|Z|Z, Z|I, Z|R, Z|X, Z|G;M, Z;Z, I;Z|I;Z, Z|W, Z|I;W, Z|W;W, each x 2 pre-histories x {no, some} buffered work, followed on thread 0 by every kind of call on the closed cache; plus lookups flushing batches to the policy worker (buffer_items 0 / 1) while another client closes, plus programs that drop every handle without close(); all schedules up to preemption bound 2 (3 for two-thread shapes in the thorough tier); oracle: no panic / no deadlock (engine), every call that begins after a close() returned Ok is refused without effect, both workers have terminated at the final quiescent point; non-trivial = some close() returned Ok".into(),
         assumptions: {
             let mut a = all_std();
             a.push("drop-without-close relies on the fairness rule of DESIGN §4.1 for the disconnected-channel spin of the worker".into());
@@ -2113,6 +2148,12 @@ pub fn c12(tier: &str, flavor: Flavor) -> Spec {
 
 fn o_c17(p: &Program, t: &Trace) -> Vec<Finding> {
     let mut v = o_metrics(p, t);
+    // "counters restart from zero at clear()" presupposes that a clear() has taken effect when it
+    // returns: with several clients clearing, the lookup clauses tell a clear() acknowledged before
+    // its wipe (every counter value it leaves is also reachable by a legal order of the calls)
+    if p.threads.len() > 1 && p.threads.iter().flatten().filter(|o| **o == Op::Clear).count() > 1 {
+        v.extend(o_lookup(p, t));
+    }
     // sets_rejected == the policy's popularity rejections (observed rounds with inc_hits < min_hits)
     if let Some(s) = t.snaps.iter().rev().find(|s| s.quiescent) {
         if let Some(m) = &s.metrics {
